@@ -12,7 +12,7 @@ import est_common as ec
 
 PROP_FILE = 'theories/Properties/C16.v'
 MODEL_FILES = ['theories/Model/Generalize.v']
-GEN_GROUPS = []
+GEN_GROUPS = ['gener']
 RULE = ('combined frames = study sample (S=1) stacked on a sample of the target (S=0): 1-2 categorical effect modifiers of '
         'arity 2-3, every stratum has >=2 sampled rows in each arm (both outcome values present when binary) and >=1 '
         'non-sampled row; binary or normal outcome; optionally the same allocation fraction in every stratum (balanced). '
